@@ -164,4 +164,18 @@ BudgetRespected ==
   /\ (Cfg.once => \A i, j \in DOMAIN loads : loads[i] = loads[j] => i = j)
 
 Done == done
+(***************************************************************************)
+(* Preloader (traversal.Config.Preloader).  Before the walk proper enters  *)
+(* a block, the code makes a lateral pass over that block with the same    *)
+(* selector and reports the links it meets to the preloader, without       *)
+(* loading them.  The pass is not a transition of this machine: it has no  *)
+(* effect on frames, visits, loads or budgets of an uncontrolled walk.     *)
+(* What the replay checks for every uncontrolled case, as a second run     *)
+(* with a recording preloader:                                             *)
+(*   PreloaderIsTransparent  visits and loads are exactly those of this    *)
+(*                           machine (i.e. of the run without a preloader) *)
+(*   LoadedWasAnnounced      Range(loads) \subseteq announced              *)
+(* With budgets the documentation calls the announced set approximate      *)
+(* (C15 excludes that combination); no relation is checked there.          *)
+(***************************************************************************)
 =============================================================================
